@@ -27,6 +27,7 @@ type Prog struct {
 	Funcs     map[string]*ssa.Function // pkgpath::Name
 	Mutable   map[string]bool          // heap names (field keys) stored outside constructors
 	FieldScan bool
+	nonNil    map[string]bool
 	LoadErrs  []string
 }
 
